@@ -21,7 +21,7 @@ WATCHDOG = {"quick": 900, "thorough": 3000}
 SANITIZE = {"quick": ["asan", "bounds"], "thorough": ["asan", "bounds"]}
 SANITIZE_SHARDS = {"quick": 1, "thorough": 1}
 REQUIRED_CLASSES = {t: ["equal_neighbouring_ranges", "extreme_reached_twice", "constant_prefix", "constant_suffix",
-                        "signal_len_2", "plateau_reversal", "float_signal", "closing_tie_decides"]
+                        "signal_len_2", "plateau_reversal", "float_signal", "closing_tie_decides", "near_equal_neighbours"]
                     for t in ("quick", "thorough")}
 REQUIRED_MONITORS = ["find_turns==ref", "fourpoint:cycles==ref(ordered,values+indices)", "fourpoint:residual==ref",
                      "threepoint:cycle_multiset==ref", "threepoint:residual==ref", "fkm:cycles==ref_hcm(ordered)",
@@ -53,6 +53,9 @@ def generate(ctx):
         for s in ([1.0, 2.0], [2.0, 2.0], [0, 1, 0, 1, 0, 1], [0, 2, 1, 2, 1, 2, 0], [1, 1, 1, 3, 1, 1], [0, 3, 0, 3, 0],
                   [0, 4, 1, 3, 1, 4, 0, 4, 0], [2, 2, 0, 5, 5, 1, 1, 4, 4, 4]):
             yield {"signal": [float(v) for v in s]}
+    from ..gen.signals import fine_sine
+    for _ in range(max(2, n // 400)):
+        yield {"signal": fine_sine(rng), "gen": "fine_sine"}
     for _ in range(n):
         name, s = G.any_signal(rng, minlen=2)
         if rng.random() < 0.2:
@@ -99,6 +102,9 @@ def run_case(case, ctx):
         ctx.tag("plateau_reversal")
     if any(v != int(v) for v in sig):
         ctx.tag("float_signal")
+    dd = np.abs(np.diff(x))
+    if np.any((dd > 0) & (dd < 1e-7)):
+        ctx.tag("near_equal_neighbours")
     if _tie_decides(idx, val):
         ctx.tag("closing_tie_decides")
 
